@@ -107,8 +107,13 @@ func (l *Lexer) NextToken() Token {
 	case '.':
 		tok = newToken(DOT, l.ch)
 	case 0:
-		tok.Literal = ""
-		tok.Type = EOF
+		// a 0 byte inside of the input is not the end of the input
+		if l.position < len(l.input) {
+			tok = newToken(ILLEGAL, l.ch)
+		} else {
+			tok.Literal = ""
+			tok.Type = EOF
+		}
 	default:
 		if isIdentifierLetter(l.ch) {
 			tok.Literal = l.readIdentifier()
